@@ -54,8 +54,25 @@ class Effect:
         return f"{self.fn.path}|{self.what}"
 
 
-def effects(f):
-    """all effects of function f on counted allocator storage"""
+def spliceable(g):
+    """a PRIVATE method of Allocator whose effects on counted storage are ghost-counter updates on its success path only
+    (no loop, no effect in an error block): its callers account for it (effects() places its effects at the call)"""
+    if g is None or g.d.get("vis") != "priv" or g.d.get("impl_for") != "allocator::Allocator":
+        return False
+    sub = effects(g, 3)
+    if not sub:
+        return False
+    g.status()
+    inl = set()
+    for body in g.loops().values():
+        inl |= body
+    return all(not g.is_error_block(e.b) and e.b not in inl and e.kind in ("ghost-add", "ghost-sub", "ghost-set") for e in sub)
+
+
+def effects(f, _depth=0):
+    """all effects of function f on counted allocator storage.  A call of a PRIVATE method of Allocator whose own
+    effects all lie on its success path (none in an error block, none in a loop) is replaced by those effects, placed at
+    the call: extracting a few accounting lines into a private helper must not change any verdict."""
     out = []
     for b in sorted(f.idom().keys()):
         for i, st in enumerate(f.stmts(b)):
@@ -79,6 +96,19 @@ def effects(f):
                 out.append(Effect(f, b, i, "vec-set", VEC_OF[fl[-1]], fl[-1], None, "?", st["ln"],
                                   what=f"self.{fl[-1]} = .."))
         t = f.term(b)
+        if t["k"] == "call" and _depth < 3:
+            g = f.crate.fns.get(t.get("callee")) if getattr(f, "crate", None) is not None else None
+            if g is not None and g is not f and g.d.get("vis") == "priv" and g.d.get("impl_for") == "allocator::Allocator":
+                sub = effects(g, _depth + 1)
+                if sub:
+                    g.status()
+                    inl = set()
+                    for body in g.loops().values():
+                        inl |= body
+                    if all(not g.is_error_block(e.b) and e.b not in inl and e.kind in ("ghost-add", "ghost-sub", "ghost-set") for e in sub):
+                        for e in sub:
+                            out.append(Effect(f, b, "T", e.kind, e.resource, e.field, e.amount, e.amount_s, t["ln"],
+                                              what=e.what + f" [in {g.path.split('::')[-1]}]"))
         if t["k"] == "call" and t.get("args"):
             m = method_name(t.get("callee") or t.get("raw"))
             fld = None
